@@ -73,7 +73,7 @@ class Agg:
 class FnPtr:
     def __init__(self, name): self.name = name
 class Closure:
-    def __init__(self, name, upvars): self.name = name; self.upvars = upvars
+    def __init__(self, name, upvars): self.name = name; self.fields = [Cell(u) for u in upvars]
 class Unit: pass
 UNIT = Unit()
 
@@ -126,7 +126,7 @@ class Interp:
                 for k in range(1, len(segs)): self.callmap.setdefault('::'.join(segs[k:]), name)
             m = re.search(r'<impl at ([^>]+?):(\d+):(\d+): \d+:\d+>', name)
             if m:
-                hdr = impl_header(m.group(1), int(m.group(2)), int(m.group(3)))
+                hdr = impl_header(m.group(1), int(m.group(2)), int(m.group(3)), name.split('::')[0])
                 if hdr:
                     trait, ty = hdr
                     prefix = name[:m.start()]; rest = name[m.end():]
@@ -223,7 +223,7 @@ class Interp:
     trace = False; depth = 0
     def call_fn(self, name, args):
         fn = self.fns[name]
-        saved_crate = getattr(self, 'cur_crate', ''); self.cur_crate = 'vstd' if name.startswith('vstd::') else 'nsym'
+        saved_crate = getattr(self, 'cur_crate', ''); self.cur_crate = name.split('::')[0] if name.split('::')[0] in ('vstd', 'futures', 'atomic_float') else 'nsym'
         try:
             return self.call_fn_inner(fn, name, args)
         finally:
@@ -322,7 +322,7 @@ class Interp:
                 a = cell.v
                 if a is None and write:
                     a = cell.v = Agg('?', None, [])
-                if isinstance(a, Agg):
+                if isinstance(a, (Agg, Closure)):
                     while len(a.fields) <= p[1]: a.fields.append(Cell(None))
                     cell = a.fields[p[1]]
                 else: raise Unsupported("field of %r" % (a,))
@@ -359,6 +359,8 @@ class Interp:
         if s.startswith('ZeroSized: {closure@'): return Closure(s[len('ZeroSized: '):], [])
         m = re.fullmatch(r'(-?\d+)_([iu](?:\d+|size))', s)
         if m: return int(m.group(1))
+        m = re.fullmatch(r'(-?[\d.]+(?:[eE][-+]?\d+)?)f(32|64)', s)
+        if m: return float(m.group(1))
         if s.startswith('b"'): return s
         if s.startswith('"'): return eval(s.replace('\\u{', '\\u{').replace('\n', '\\n')) if '\\u{' not in s else s[1:-1]
         if s.startswith("'"): return eval(s)
@@ -369,6 +371,9 @@ class Interp:
         r = self.resolve(s)
         if r and getattr(self.fns[r], 'is_const', False): return self.call_fn(r, [])
         if r: return FnPtr(s)
+        if re.fullmatch(r'[\w:]+', s) and s.split('::')[-1][:1].isupper():
+            ty, variant = self.split_variant(s)
+            return Agg(ty, variant, [])
         raise Unsupported("const " + s)
 
     def rvalue(self, fr, rv):
@@ -399,6 +404,8 @@ class Interp:
         if k == 'fnptr': return FnPtr(rv[1])
         if k == 'cast':
             v = self.operand(fr, rv[1])
+            if rv[3] == 'IntToFloat' and not isinstance(v, Term): return float(v)
+            if rv[3] == 'FloatToInt' and not isinstance(v, Term): return int(v)
             return v   # spike: IntToInt casts treated as identity (TODO wrap)
         if k == 'closure': return Closure(rv[1], [self.operand(fr, o) for _, o in rv[2]])
         raise Unsupported("rvalue " + str(rv))
@@ -445,6 +452,14 @@ class Interp:
         if op in ar:
             if not sym: return {'Add': a + b, 'Sub': a - b, 'Mul': a * b}[op]
             return Term("(%s %s %s)" % (ar[op], smt_int(a), smt_int(b)), 'Int')
+        if op in ('Div', 'Rem') and not sym:
+            if isinstance(a, float) or isinstance(b, float): return a / b if op == 'Div' else a % b
+            if b == 0: raise Panic('division by zero')
+            q = abs(a) // abs(b) * (1 if (a >= 0) == (b >= 0) else -1)
+            return q if op == 'Div' else a - q * b
+        if op in ('BitAnd', 'BitOr', 'BitXor') and not sym:
+            if isinstance(a, bool): return {'BitAnd': a and b, 'BitOr': a or b, 'BitXor': a != b}[op]
+            return {'BitAnd': a & b, 'BitOr': a | b, 'BitXor': a ^ b}[op]
         raise Unsupported("binop " + op)
 
     def const_type(self, op):
@@ -458,7 +473,9 @@ class Interp:
         if isinstance(f, Closure): return self.call_fn(self.closure_fns[f.name], [f] + args) if not self.fns[self.closure_fns[f.name]].params[0].strip().startswith('_1: &') else self.call_fn(self.closure_fns[f.name], [Ref(Cell(f))] + args)
         return self.do_call(f.name, args)
 
+    calltrace = False  # CALLTRACE
     def do_call(self, callee, args):
+        if self.calltrace: print('CALL', callee[:150], [repr(x)[:60] for x in args])
         base = strip_generics(callee)
         m = self.models.get(base)
         if m is None:
@@ -506,12 +523,14 @@ def last_seg_keep_generics(t):
 
 _SRC_CACHE = {}
 SRC_ROOTS = []
-def impl_header(path, line, col=1):
+def impl_header(path, line, col=1, crate=''):
     import os
-    for root in SRC_ROOTS:
+    roots = [r for r in SRC_ROOTS if r.rstrip('/').endswith('/' + crate)] or [SRC_ROOTS[0]]
+    for root in roots:
         fp = os.path.join(root, path)
         if os.path.exists(fp):
             if fp not in _SRC_CACHE: _SRC_CACHE[fp] = open(fp).read().split('\n')
+            if line - 1 >= len(_SRC_CACHE[fp]): return None
             ln = _SRC_CACHE[fp][line - 1]
             if ln.strip().startswith('#[derive'):
                 mt = re.match(r'\w+', ln[col-1:])
